@@ -151,7 +151,8 @@ Proof. intro H. apply emit_ok in H. destruct H as (? & _ & ->). reflexivity. Qed
 Lemma efrag_breaks_all :
   (forall e, efrag e = true -> forall st st', compile_expr true e st = COk st' -> cbreaks st' = cbreaks st) /\
   (forall l, efrag_list l = true -> forall st st', compile_elist true l st = COk st' -> cbreaks st' = cbreaks st) /\
-  (forall l, efrag_pairs l = true -> forall st st', compile_pairs true l st = COk st' -> cbreaks st' = cbreaks st) /\ (forall o : oexpr, True).
+  (forall l, efrag_pairs l = true -> forall st st', compile_pairs true l st = COk st' -> cbreaks st' = cbreaks st) /\
+  (forall o, efrag_o o = true -> forall st st', compile_oexpr true o st = COk st' -> cbreaks st' = cbreaks st).
 Proof.
   apply expr_mutind; try (intros; exact I).
   - intros f HF st st' HC; simpl in HC. unfold emit_const in HC. apply emit_breaks in HC. exact HC.
@@ -170,7 +171,12 @@ Proof.
   - intros e1 IHe1 e2 IHe2 HF st st' HC; simpl in HC.
     simpl in HF. apply andb_true_iff in HF. destruct HF as [HF1 HF2]. bind_inv HC. bind_inv H.
     rewrite <- (IHe1 HF1 _ _ H0), <- (IHe2 HF2 _ _ H). apply emit_breaks in HC. exact HC.
-  - intros l _ a _ b _ HF. discriminate HF.
+  - intros l IHl a IHa b IHb HF st st' HC. cbn [efrag] in HF.
+    apply andb_true_iff in HF. destruct HF as [HF HF3]. apply andb_true_iff in HF. destruct HF as [HF1 HF2].
+    cbn [compile_expr] in HC.
+    apply bind_ok in HC; destruct HC as (c3 & HC3 & HC). apply bind_ok in HC3; destruct HC3 as (c2 & HC2 & HCb).
+    apply bind_ok in HC2; destruct HC2 as (c1 & HCl & HCa).
+    apply emit_breaks in HC. rewrite HC, (IHb HF3 _ _ HCb), (IHa HF2 _ _ HCa). apply (IHl HF1 _ _ HCl).
   - intros e IHe HF st st' HC; simpl in HC. apply (IHe HF _ _ HC).
   - intros w HF. discriminate HF.
   - intros _ st st' HC. simpl in HC. inversion HC; reflexivity.
@@ -180,6 +186,8 @@ Proof.
   - intros k e IHe t IHt HF st st' HC. cbn [efrag_pairs] in HF. apply andb_true_iff in HF. destruct HF as [HF1 HF2].
     cbn [compile_pairs] in HC. bind_inv HC. bind_inv H. unfold emit_const in H0. apply emit_breaks in H0. cbn [cbreaks] in H0.
     rewrite (IHt HF2 _ _ HC), (IHe HF1 _ _ H). exact H0.
+  - intros _ st st' HC. cbn [compile_oexpr] in HC. apply emit_breaks in HC. exact HC.
+  - intros e IHe HF st st' HC. cbn [efrag_o] in HF. cbn [compile_oexpr] in HC. apply (IHe HF _ _ HC).
 Qed.
 
 Lemma efrag_breaks : forall e, efrag e = true -> forall st st', compile_expr true e st = COk st' -> cbreaks st' = cbreaks st.
